@@ -199,7 +199,7 @@ PROPS['C01'] = dict(
 PROPS['C02'] = dict(
     lean=['QscProofs.C02', 'QscProofs.C20Newton'], theorems=thms('QscProofs.C02') + ['Hand.Newton.newton_sound', 'Hand.Newton.iter_best_decreases'],
     gen=['Sigma'], corr=corr_merge(corr_generated(['Sigma'], orders=('r1',)), corr_hand_kernels(['newton'])),
-    oracle=lambda ctx: (lambda st: (oracles.oracle_C02(ctx.all_orders(), st), oracles.oracle_C02_wild(st, ctx.seed, 120 if ctx.thorough else 30), oracles.oracle_C02_shooting(ctx.objects('r1'), st) if ctx.thorough else None, st.out())[-1])(oracles.Stats()),
+    oracle=lambda ctx: (lambda st: (oracles.oracle_C02(ctx.all_orders(), st), oracles.oracle_C02_wild(st, ctx.seed, 120 if ctx.thorough else 30), oracles.oracle_newton(st, ctx.seed, 64 if ctx.thorough else 24), oracles.oracle_C02_shooting(ctx.objects('r1'), st) if ctx.thorough else None, st.out())[-1])(oracles.Stats()),
     rule=RULE, partial=['agreement of iota with an independent shooting solution of the continuous ODE as nphi grows is analysis: decided numerically (thorough tier), not proved',
                         'convergence of Newton on a given input is not proved: the theorem says a non-converged solve is never silent'])
 
@@ -259,7 +259,7 @@ PROPS['C12'] = dict(
 
 PROPS['C13'] = dict(
     lean=['QscProofs.C13', 'QscProofs.C03'], theorems=thms('QscProofs.C13') + ['C03.untwist_h0', 'C03.untwist_same_surface_1'], gen=['R1d', 'R2', 'R3', 'BmagCyl', 'BmagBoozer'],
-    corr=corr_merge(corr_generated(['R1d', 'BmagCyl', 'BmagBoozer']), corr_hand_kernels(['helicity'])), oracle=oracle_multi(oracles.oracle_C13),
+    corr=corr_merge(corr_generated(['R1d', 'BmagCyl', 'BmagBoozer']), corr_hand_kernels(['helicity'])), oracle=lambda ctx: (lambda st: (oracles.oracle_C13(ctx.all_orders(), st), oracles.oracle_C13_synthetic(st, ctx.seed, 60 if ctx.thorough else 15), st.out())[-1])(oracles.Stats()),
     rule=RULE, partial=['the cubic-spline interpolants (nu_spline, B20_spline) are parameters with the contract stated in C13.Bmag_agree; "helicity = winding number" needs the grid to resolve the rotation (consecutive quadrants differ by at most one step): explicit hypothesis of C13.counter_winding'])
 
 PROPS['C14'] = dict(
